@@ -48,6 +48,10 @@ func longPrefixUnknown(r *rng.R) cty.Value {
 
 func genC16(c *Ctx, r *rng.R, i int) {
 	t := gt.Gen(r, gt.Cfg{Depth: 3, DynPct: 0, OptPct: 0, CapPct: 0, MaxWidth: 3})
+	if r.Chance(22) {
+		// members whose own type is not decided: DynamicVal and untyped nulls inside tuples and objects
+		t = gt.Gen(r, gt.Cfg{Depth: 3, DynPct: 18, OptPct: 0, CapPct: 0, MaxWidth: 3})
+	}
 	if r.Chance(30) {
 		t = gt.P([]gt.Kind{gt.Num, gt.Str, gt.Num}[r.Intn(3)])
 	}
